@@ -20,6 +20,8 @@ RULES = {
     "T8": C.rule_T8,
     "T9": B.rule_T9,
     "T10": B.rule_T10,
+    "T11": B.rule_T11,
+    "T12": B.rule_T12,
     "A1": R.rule_A1,
     "A2": B.rule_A2,
     "A4": R.rule_A4,
@@ -43,11 +45,13 @@ RULES = {
 
 PROPS = {
     "C01": {
-        "rules": ["T1", "T2"],
-        "claim": "Decides the wiring clause of C01, not the computed values: every operator spelling is wired, through the "
+        "rules": ["T1", "T2", "A5", "T12"],
+        "claim": "Decides the wiring clauses of C01, not the computed values: every operator spelling is wired, through the "
         "five tables lexer -> get_definition -> handle_parse_node -> execute_current_instruction -> perform_*, to the "
-        "public runtime function and GarnishNumber method the language table gives it, and the three dispatch matches "
-        "have no catch-all arm (a missing handler is a compile error).",
+        "public runtime function and GarnishNumber method the language table gives it; the three dispatch matches "
+        "have no catch-all arm (a missing handler is a compile error); operands reach the host/operation in source order "
+        "(left = popped second, A5); and every child build node inherits its parent's containing-expression entry, only a "
+        "nested expression body and the tree root starting a new one (T12: a reapply re-enters the expression it is written in).",
     },
     "C02": {
         "rules": ["T3"],
@@ -122,13 +126,14 @@ PROPS = {
         "That parse returns a proper binary tree covering every token is not decided.",
     },
     "C05": {
-        "rules": ["A2", "D4", "T1"],
+        "rules": ["A2", "D4", "T1", "T11"],
         "claim": "Decides three clauses of C05: exactly one metadata record per emitted instruction on every builder path (A2, path-sensitive "
         "typestate); operands have the kind their instruction's reader expects and come from the data object's own tables - jump "
         "operands and expression values from get_jump_table_len(), data operands from add_*/parse_add_*, list counts from the child "
         "counter, jump-table entries from get_instruction_len() or a zero placeholder whose index is registered for patching, the "
-        "patch itself from get_instruction_len() (D4, interprocedural origin analysis); and every Definition has a handler (T1). "
-        "Block terminators and root-stack exhaustion depend on program shape and are not decided.",
+        "patch itself from get_instruction_len() (D4, interprocedural origin analysis); every Definition has a handler (T1); and the loop appending a "
+        "root's end instructions has no early exit, so the re-joining JumpTo / EndExpression is always considered (T11). That the "
+        "'already present' test compares the right instruction and root-stack exhaustion depend on program shape and are not decided.",
     },
     "C20": {
         "rules": ["D4", "W1"],
